@@ -272,7 +272,8 @@ PROPS['C02'] = dict(level='exploration', rule=RULE_BYTES, assumptions=ASSUME_BYT
                                W_P_MIXED_SAN,
                                WI('fragment-random-sanitized', gen_idna.w_frag_random, 800, 30000, configs=['asan']),
                                WI('canonical-decomposables-sweep-sanitized', gen_idna.w_decomposable_sweep, configs=['asan']),
-                               WI('structured-sanitized', gen_idna.w_structured, configs=['asan'])])
+                               WI('structured-sanitized', gen_idna.w_structured, configs=['asan']),
+                               dict(W_HOST(300, 10000), name='host-lattice-sanitized', configs=['asan'])])
 
 
 # ---- C17: the C API is a faithful, crash-free wrapper (the C handle is driven in lockstep in every URL / params / idna trace)
